@@ -201,6 +201,38 @@ func runC08(w *h.W, batch int) {
 			w.Held("dry|"+cfg, true)
 		}
 	}
+	// 2b. the same clean seal under strace: publication order at the syscall level (independent of the hooks)
+	sdesc := map[string]any{"step": "clean seal under strace", "config": cfg}
+	if w.Begin(sdesc) {
+		sdir := filepath.Join(work, "strace")
+		copyDir(pristine, sdir)
+		spec := phaseSpec{Steps: []phaseStep{{Op: "seal"}}, Known: known, Dir: sdir, Work: work, Opt: opt, Out: filepath.Join(work, "strace.out"), Events: filepath.Join(work, "strace.events")}
+		os.Remove(spec.Out)
+		os.Remove(spec.Events)
+		sp := filepath.Join(work, "strace.spec")
+		writeSpec(sp, spec)
+		trace := filepath.Join(work, "strace.trace")
+		os.Remove(trace)
+		sres := h.SpawnPhaseWrapped(work, []string{"strace", "-f", "-o", trace, "-e", straceDurabilityTrace}, "store", 3*time.Minute, nil, sp)
+		rd := checkRenameDurability(trace,
+			func(dst string) bool { return strings.HasSuffix(dst, ".sdocs") || strings.HasSuffix(dst, ".index") },
+			func(dst string) []string {
+				if base, ok := strings.CutSuffix(dst, ".index"); ok {
+					return []string{base + ".meta", base + ".docs"}
+				}
+				return nil
+			})
+		w.Count("strace_publications_checked", int64(rd.Renames))
+		w.Count("strace_removals_checked", int64(rd.Unlinks))
+		switch {
+		case rd.Violation != "":
+			w.Violation("C08:syscall-order", map[string]any{"diff": rd.Violation, "config": cfg})
+		case sres.TimedOut || sres.ExitCode != 0 || rd.Renames == 0 || !rd.Recognised || rd.Unlinks == 0:
+			w.Inconclusive(fmt.Sprintf("strace monitor: exit=%d renames=%d removals=%d writes recognised=%v", sres.ExitCode, rd.Renames, rd.Unlinks, rd.Recognised))
+		default:
+			w.Held(fmt.Sprintf("strace|%v|%d", opt.SkipSortDocs, rd.Renames), true)
+		}
+	}
 	type inj struct {
 		kind, point string
 		k           int64
